@@ -446,6 +446,15 @@ func libStubs() map[string]StubFn {
 	atomicStore := func(c *CallCtx) { c.ex.store(c.st, c.args[0].(Ptr), c.args[1]); c.Return(nil) }
 	m["sync/atomic.StorePointer"] = atomicStore
 	m["sync/atomic.StoreInt32"] = atomicStore
+	cas := func(c *CallCtx) {
+		p := c.args[0].(Ptr)
+		old := c.ex.load(c.st, p).(*Term)
+		eq := Eq(old, c.args[1].(*Term))
+		c.ex.store(c.st, p, Ite(eq, c.args[2].(*Term), old))
+		c.Return(eq)
+	}
+	m["sync/atomic.CompareAndSwapInt32"] = cas
+	m["sync/atomic.CompareAndSwapUint32"] = cas
 	m["sync/atomic.StoreUint32"] = atomicStore
 	// Comp.TypeOf(v): the universe's type object for v's dynamic type (xreflect internals not encoded)
 	typeOfDyn := func(c *CallCtx) {
